@@ -209,6 +209,22 @@ def clone_function_example(ctx):
     return inherited
 
 
+def wrapper_example(ctx):
+    """two wrappers of one class whose arguments print alike ('T' for temperature and for period) are distinct objects that keep
+    their own argument and dimension (regression guard for /repo f39c340)"""
+    from symplyphysics import symbols  # pylint: disable=import-outside-toplevel
+    from symplyphysics.core.operations.symbolic import Average  # pylint: disable=import-outside-toplevel
+    a, b = Average(symbols.temperature), Average(symbols.period)
+    ok = a is not b and a != b and a.factor is symbols.temperature and b.factor is symbols.period and a.dimension != b.dimension
+    ctx.coverage["wrapper_example"] = {"Average(temperature) is Average(period)": a is b, "equal": bool(a == b), "texts": [str(a), str(b)],
+        "dimensions": [str(a.dimension), str(b.dimension)]}
+    if not ok:
+        ctx.violation("C09:wrapper-alias:Average", "Average(symbols.temperature) and Average(symbols.period) are not two distinct objects with their "
+            f"own argument and dimension: same object={a is b}, equal={a == b}, factors {a.factor}/{b.factor}, dimensions {a.dimension}/{b.dimension}",
+            {"kind": "violation", "input": "Average(symbols.temperature), Average(symbols.period)", "observed": ctx.coverage["wrapper_example"],
+             "expected": "two different objects; factor and dimension of each its own"}, True)
+
+
 def store_stream(ctx, n_cases, max_ops):
     import sympy  # pylint: disable=import-outside-toplevel
     rng = ctx.rng
@@ -344,6 +360,7 @@ def run(ctx):
     found = symgen.tie_prefixes(ctx)
     symgen.ids_stream(ctx, ctx.pick(300, 3000), found)
     clone_function_example(ctx)
+    wrapper_example(ctx)
     store_stream(ctx, ctx.pick(80, 400), 200)
     ctx.coverage["rule"] = ("store stream: seeded sequences of 3..200 creations/clones (Symbol, IndexedSymbol, Function, Quantity, "
         "CoordinateSystem/transform/rotate, VectorSymbol, QuantityVector, clone_as_symbol/function/indexed) with display names from a pool "
@@ -360,6 +377,11 @@ def replay(ctx, rep):
         ok = clone_function_example(ctx)
         print("replayed: clone inherits positivity =", ok)
         return 0 if ok else 1
+    if rep.get("key", "").startswith("C09:wrapper-alias") and "ops" not in rep:
+        n0 = len(ctx.violations)
+        wrapper_example(ctx)
+        print("REPRODUCED" if len(ctx.violations) > n0 else "not reproduced on this tree")
+        return 1 if len(ctx.violations) > n0 else 0
     if rep.get("key", "").startswith("C09:ids-not-increasing"):
         from symplyphysics import Symbol, Function, Quantity  # pylint: disable=import-outside-toplevel
         from symplyphysics.core.symbols import id_generator  # pylint: disable=import-outside-toplevel
@@ -455,5 +477,7 @@ def replay_ops(ops, t, probe=None):
         e = A * X + B * Y
         raw = (e.subs(X, 7), sympy.diff(e, X), sympy.solve(e, X))
         algebra.append({"idx": tuple(idx), "raw": raw, "texts": [str(r) for r in raw]})
+    import random
     return {"seen": seen, "ops": kept, "objs": objs, "alias": alias, "not_self_equal": [], "algebra": algebra, "sums": sums, "t": t,
-        "ids_before": before, "tabs": tabs}
+        "ids_before": before, "tabs": tabs, "matrix": symgen.printing_matrix(objs, seen, t, random.Random(0), limit=10**6),
+        "wrappers": symgen.wrapper_probe(objs, seen, random.Random(0), pairs=6)}
